@@ -649,7 +649,21 @@ func (c *compiler) compile(tok *token) []instruction {
 		for i := len(tok.Tokens[switchCases].Tokens) - 1; i >= 0; i-- {
 			cs := tok.Tokens[switchCases].Tokens[i]
 			const caseStmt, caseBlock = 0, 1
-			csStmt := c.optimize(c.compile(cs.Tokens[caseStmt]))
+			caseValues := []*token{cs.Tokens[caseStmt]}
+			if caseValues[0].Symbol == "," {
+				caseValues = caseValues[0].Tokens
+			}
+			var csStmt []instruction
+			for n := len(caseValues) - 1; n >= 0; n-- {
+				test := c.optimize(c.compile(caseValues[n]))
+				if isValue {
+					test = append(test, instruction{Code: codeLocalGet, A: reg(v)}, instruction{Code: codeEq})
+				}
+				if len(csStmt) > 0 {
+					test = append(test, instruction{Code: codeOr, A: reg(len(csStmt))})
+				}
+				csStmt = append(test, csStmt...)
+			}
 			c.Begin()
 			csBlock := c.optimize(c.compileAll(cs.Tokens[caseBlock].Tokens))
 			for n, ins := range csBlock {
@@ -661,10 +675,6 @@ func (c *compiler) compile(tok *token) []instruction {
 			c.End()
 			var chunk []instruction
 			chunk = append(chunk, csStmt...)
-			if isValue {
-				chunk = append(chunk, instruction{Code: codeLocalGet, A: reg(v)})
-				chunk = append(chunk, instruction{Code: codeEq})
-			}
 			chunk = append(chunk, instruction{Code: codeJumpFalse, A: reg(len(csBlock) + 1)})
 			chunk = append(chunk, csBlock...)
 			chunk = append(chunk, instruction{Code: codeJump, A: reg(len(out) + len(defBlock))})
